@@ -206,8 +206,10 @@ class FontConfig(NamedTuple):
     @property
     def is_ot_svg(self) -> bool:
         return self._has_any(
-            "".join(p)
-            for p in itertools.product(("picosvg", "untouchedsvg"), ("", "z"))
+            *(
+                "".join(p)
+                for p in itertools.product(("picosvg", "untouchedsvg"), ("", "z"))
+            )
         )
 
     def validate(self):
